@@ -1,3 +1,118 @@
-(* C37 - property theorems (being filled in). *)
-From Coq Require Import List NArith ZArith Bool.
-From HV Require Import Model.ValidityWindow Model.DsmrVerify.
+(* C37 — a DSMR chain never references an expired or already-included chunk.  Property theorems only.
+
+   Model/DsmrVerify.v: a DSMR block is a [block] whose items are chunk certificates
+   (chunk id, expiry); [dsmr_verify] = Node.Verify (header checks, VerifyExpiryReplayProtection,
+   the expiry interval loop added by fix 1a58604), [dsmr_build] = Node.BuildBlock's filter,
+   [run dsmr_vf] = the node's window driven by consensus-engine calls.  Unlike C09 the validity
+   interval of the certificates is NOT a hypothesis: certificates of any expiry may appear in
+   blocks; Verify has to reject them.  Hypotheses [tree_ok0]/[ts_pos] as in C09 (heights, monotone
+   non-negative timestamps, a chunk id determines its expiry). *)
+From Coq Require Import List NArith ZArith Bool Lia.
+Import ListNotations.
+From HV Require Import Model.ValidityWindow Model.DsmrVerify
+                       Proofs.ValidityWindow_proofs Proofs.DsmrVerify_proofs.
+Local Open Scope Z_scope.
+
+(* Every block Node.Verify accepts, in any call sequence respecting the engine contract, lies on a
+   path to genesis on which every block has pairwise different chunk ids, no two blocks share a
+   chunk id, and every certificate satisfies block ts <= expiry <= block ts + W
+   ([clean] = these three facts for all blocks of the path). *)
+Theorem C37_no_repeat : forall (tree : index) (W : Z) (g : N) (gb : block) (ops : list op) (e : eng),
+  tree_ok0 tree -> ts_pos tree ->
+  tree g = Some gb -> b_height gb = 0%N -> b_items gb = [] ->
+  eng_run tree (eng0 g) ops (run dsmr_vf tree W (sys0 tree W gb) ops) = Some e ->
+  forall v, In v (e_ever e) -> exists vb, tree v = Some vb /\ clean tree W vb.
+Proof.
+  intros tree W g gb ops e TOK POS Hg Hh Hnil Hrun.
+  assert (forall idx w b, in_tree tree b -> dsmr_vf tree idx w W b = 0%N ->
+            verify_replay idx w W b = 0%N /\ interval_ok W b) as VF
+    by (intros idx w b _ Hv; exact (dsmr_vf_sound tree W idx w b Hv)).
+  assert (NoDup (ids (b_items gb))) as Hnd by (rewrite Hnil; constructor).
+  assert (interval_ok W gb) as Hig by (intros x e' Hin; rewrite Hnil in Hin; contradiction).
+  exact (run_inv tree W TOK dsmr_vf VF POS ops _ _ e (inv0 tree W TOK g gb Hg Hh Hnd Hig) Hrun).
+Qed.
+Print Assumptions C37_no_repeat.
+
+(* Verify rejects outright, whatever the window state: a chunk twice in one block, a certificate
+   whose expiry is before the block timestamp, a certificate beyond the window, an empty block,
+   a timestamp not above the parent's. *)
+Theorem C37_verify_rejects : forall (idx : index) (w : win) (W : Z) (parent b : block),
+  (b_height b <=? last_h w)%N = false ->
+  dsmr_verify idx w W parent b = 0%N ->
+  NoDup (ids (b_items b)) /\
+  (forall x e, In (x, e) (b_items b) -> b_ts b <= e <= b_ts b + W) /\
+  b_items b <> [] /\ b_ts parent < b_ts b.
+Proof.
+  intros idx w W parent b Hh Hv. apply dsmr_verify_ok in Hv.
+  destruct Hv as [_ [_ [Hts [Hne [Hr Hint]]]]].
+  split; [|split; [exact Hint | split; [exact Hne | lia]]].
+  unfold verify_replay in Hr. rewrite Hh in Hr.
+  destruct (has_dup [] (ids (b_items b))) eqn:Hd; [discriminate|].
+  exact (proj1 (has_dup_spec _ _ Hd)).
+Qed.
+Print Assumptions C37_verify_rejects.
+
+(* BuildBlock over pending certificates with distinct chunk ids: the block it emits contains only
+   certificates with ts <= expiry <= ts + W, is not empty, and passes Node.Verify on the same
+   parent (hence, by C37_no_repeat, references nothing an ancestor references).  The bound on ts is
+   Verify's clock-skew check, which BuildBlock does not perform. *)
+Theorem C37_builder : forall (idx : index) (w : win) (W : Z) (parent : block) (ts : Z)
+                             (certs avail : list item) (newid : N),
+  idx (b_id parent) = Some parent ->
+  NoDup (ids certs) ->
+  ts <= b_ts parent + max_time_skew ->
+  dsmr_build idx w W parent ts certs = (0%N, avail) ->
+  dsmr_verify idx w W parent (mkB newid (b_id parent) (N.succ (b_height parent)) ts avail) = 0%N /\
+  (forall x e, In (x, e) avail -> ts <= e <= ts + W) /\ avail <> [].
+Proof. exact builder_passes_verify. Qed.
+Print Assumptions C37_builder.
+
+(* ---- non-vacuity ---- *)
+Ltac tcases_go H :=
+  match type of H with
+  | (if (?k =? ?i)%N then _ else _) = Some _ =>
+      destruct (N.eqb_spec k i); [inversion H; subst; clear H | tcases_go H]
+  | _ => discriminate H
+  end.
+Ltac tcases H := unfold tree_of in H; cbn [find b_id] in H; tcases_go H.
+
+(* certificate 100 (expiry 3) is accepted at block 1, evicted by Accept(2) (timestamp 4) and then
+   re-included by block 3: rejected as expired (code 3); 4 carries a far-future certificate
+   (code 3); the builder on 2 at ts 5 keeps only certificate 102 *)
+Definition ex_blocks : list block :=
+  [ mkB 0 99 0 0 []; mkB 1 0 1 1 [(100%N, 3)]; mkB 2 1 2 4 [(101%N, 5)];
+    mkB 3 2 3 5 [(100%N, 3)]; mkB 4 2 3 5 [(103%N, 10)] ].
+
+Example C37_hypotheses_satisfiable : tree_ok0 (tree_of ex_blocks) /\ ts_pos (tree_of ex_blocks).
+Proof.
+  split.
+  - unfold ex_blocks. constructor.
+    + intros i b H; tcases H; reflexivity.
+    + intros i b H Hh; tcases H; cbn [b_height] in Hh; try congruence;
+        (eexists; split; [reflexivity | split; [reflexivity | cbn [b_ts]; lia]]).
+    + intros i b H; tcases H; cbn [b_ts]; lia.
+    + intros i j b b' x e e' H H' Hin Hin'; tcases H; tcases H'; cbn [b_items In] in *;
+        repeat match goal with
+               | Hx : _ \/ _ |- _ => destruct Hx
+               | Hx : (_, _) = (_, _) |- _ => inversion Hx; subst; clear Hx
+               | Hx : False |- _ => contradiction
+               end; try reflexivity; try congruence.
+  - intros i b H Hh. unfold ex_blocks in H. tcases H; cbn [b_height b_ts] in *; try congruence; lia.
+Qed.
+
+Example C37_contract_satisfiable :
+  let tree := tree_of ex_blocks in
+  let ops := [OVerify 1; OAccept 1; OVerify 2; OAccept 2; OVerify 3; OVerify 4] in
+  run dsmr_vf tree 2 (sys0 tree 2 (mkB 0 99 0 0 [])) ops =
+    [OutV 0; OutUnit; OutV 0; OutUnit; OutV 3; OutV 3] /\
+  option_map e_ever (eng_run tree (eng0 0) ops (run dsmr_vf tree 2 (sys0 tree 2 (mkB 0 99 0 0 [])) ops))
+    = Some [2; 1; 0]%N.
+Proof. vm_compute. split; reflexivity. Qed.
+
+Example C37_builder_example :
+  let tree := tree_of ex_blocks in
+  let w := accept (accept (fst (new_window tree 2 (mkB 0 99 0 0 []))) (mkB 1 0 1 1 [(100%N, 3)]))
+                  (mkB 2 1 2 4 [(101%N, 5)]) in
+  dsmr_build tree w 2 (mkB 2 1 2 4 [(101%N, 5)]) 5 [(100%N, 3); (101%N, 5); (102%N, 6); (103%N, 10)]
+    = (0%N, [(102%N, 6)]).
+Proof. vm_compute. reflexivity. Qed.
